@@ -18,10 +18,16 @@ CountSev(ds, s) == Cardinality({i \in 1..Len(ds) : ds[i].severity = s})
 RunOk(e) ==
   LET shown == NotAllowed(e.lib, 1)
       w == CountSev(shown, "warning")
-      x == CountSev(shown, "error") IN
+      xc == CountSev(shown, "error")
+      \* a generator that cannot be started is reported by one more error - after the diagnostics of the compilation, and
+      \* only if the compilation itself had no error (C07); it is written and counted like every other diagnostic
+      g == IF e.gen = "missing" /\ xc = 0 THEN 1 ELSE 0
+      x == xc + g IN
   /\ ~e.timed_out
   /\ e.json_ok                                               \* JSON: one self-contained five-key object per line, nothing else
-  /\ e.records = shown                                       \* complete, exactly once, in order, code / message / location / notes
+  /\ Len(e.records) = Len(shown) + g
+  /\ SubSeq(e.records, 1, Len(shown)) = shown                \* complete, exactly once, in order, code / message / location / notes
+  /\ g = 1 => LET r == e.records[Len(e.records)] IN r.severity = "error" /\ r.code = "E001" /\ r.notes = <<>>
   /\ e.exit = (IF x > 0 THEN 1 ELSE 0)
   /\ e.stdout_other = 0
   /\ IF e.format = "human"
